@@ -270,7 +270,9 @@ pub fn run_batch(args: BatchArgs) -> i32 {
     for run in args.start..args.start + args.runs {
         let seed = args.run_seed(run);
         let case = gen(seed, run);
+        simcore::watchdog::begin_case(seed, serde_json::json!({"diff": case}));
         let r = compare(&case);
+        simcore::watchdog::end_case();
         b.res.runs += 1;
         b.res.ops += case.ops.len() as u64;
         let s = spec(case.fns[0]);
